@@ -1,26 +1,32 @@
-(* Crypto/Ripemd160.v — executable RIPEMD-160 over [list byte] (Dobbertin, Bosselaers, Preneel 1996),
-   little-endian 32-bit words as Z in [0, 2^32), two parallel lines of 80 steps.
-   Transcription validated against hashlib in the CRYPTO selftest. *)
+(* Crypto/Ripemd160.v — executable RIPEMD-160 over [list byte] (Dobbertin, Bosselaers, Preneel 1996):
+   little-endian 32-bit words, two parallel lines of 80 steps.  Words are lists of 8 four-bit digits
+   (Crypto/NibWord.v, table-driven) so that the extracted code is fast; the Z-word version in the style of
+   Sha256.v is kept as [ripemd160_z] in Crypto/Ripemd160Z.v.  Transcription validated against hashlib
+   (and against ripemd160_z) in the CRYPTO selftest. *)
 From Coq Require Import ZArith List Bool.
 From Coq.Strings Require Import Byte.
-From Verif Require Import Lib.Bytes Crypto.Sha256.
+From Verif Require Import Lib.Bytes Crypto.Sha256 Crypto.NibWord.
 Import ListNotations.
 Open Scope Z_scope.
 
-Definition rol32 (n x : Z) : Z := w32 (Z.lor (Z.shiftl x n) (Z.shiftr x (32 - n))).
-
-(* the five round functions, selected by round index 0..4 *)
-Definition rmd_f (i : nat) (x y z : Z) : Z :=
+(* the five round functions on digits, selected by round index 0..4 *)
+Definition rmd_f (i : nat) : nword -> nword -> nword -> nword :=
   match i with
-  | 0%nat => Z.lxor (Z.lxor x y) z
-  | 1%nat => Z.lor (Z.land x y) (Z.land (not32 x) z)
-  | 2%nat => Z.lxor (Z.lor x (not32 y)) z
-  | 3%nat => Z.lor (Z.land x z) (Z.land y (not32 z))
-  | _ => Z.lxor x (Z.lor y (not32 z))
+  | 0%nat => nw_map3 (fun x y z => nib_xor (nib_xor x y) z)
+  | 1%nat => nw_map3 (fun x y z => nib_or (nib_and x y) (nib_and (nib_not x) z))
+  | 2%nat => nw_map3 (fun x y z => nib_xor (nib_or x (nib_not y)) z)
+  | 3%nat => nw_map3 (fun x y z => nib_or (nib_and x z) (nib_and y (nib_not z)))
+  | _ => nw_map3 (fun x y z => nib_xor x (nib_or y (nib_not z)))
   end.
 
-Definition rmd_KL : list Z := [0x00000000; 0x5A827999; 0x6ED9EBA1; 0x8F1BBCDC; 0xA953FD4E].
-Definition rmd_KR : list Z := [0x50A28BE6; 0x5C4DD124; 0x6D703EF3; 0x7A6D76E9; 0x00000000].
+Definition rmd_add : nword -> nword -> nword := nw_add.
+Definition rmd_zero : nword := repeat N0 8.
+
+Definition rmd_KLz : list Z := [0x00000000; 0x5A827999; 0x6ED9EBA1; 0x8F1BBCDC; 0xA953FD4E].
+Definition rmd_KRz : list Z := [0x50A28BE6; 0x5C4DD124; 0x6D703EF3; 0x7A6D76E9; 0x00000000].
+
+Definition rmd_KL : list nword := map (nw_of_Z 8) rmd_KLz.
+Definition rmd_KR : list nword := map (nw_of_Z 8) rmd_KRz.
 
 Definition rmd_rL : list nat := [
   0; 1; 2; 3; 4; 5; 6; 7; 8; 9; 10; 11; 12; 13; 14; 15;
@@ -36,45 +42,52 @@ Definition rmd_rR : list nat := [
   8; 6; 4; 1; 3; 11; 15; 0; 5; 12; 2; 13; 9; 7; 10; 14;
   12; 15; 10; 4; 1; 5; 8; 7; 6; 2; 13; 14; 0; 3; 9; 11]%nat.
 
-Definition rmd_sL : list Z := [
+Definition rmd_sLn : list nat := [
   11; 14; 15; 12; 5; 8; 7; 9; 11; 13; 14; 15; 6; 7; 9; 8;
   7; 6; 8; 13; 11; 9; 7; 15; 7; 12; 15; 9; 11; 7; 13; 12;
   11; 13; 6; 7; 14; 9; 13; 15; 14; 8; 13; 6; 5; 12; 7; 5;
   11; 12; 14; 15; 14; 15; 9; 8; 9; 14; 5; 6; 8; 6; 5; 12;
-  9; 15; 5; 11; 6; 8; 13; 12; 5; 12; 13; 14; 11; 8; 5; 6].
+  9; 15; 5; 11; 6; 8; 13; 12; 5; 12; 13; 14; 11; 8; 5; 6]%nat.
 
-Definition rmd_sR : list Z := [
+Definition rmd_sRn : list nat := [
   8; 9; 9; 11; 13; 15; 15; 5; 7; 7; 8; 11; 14; 14; 12; 6;
   9; 13; 15; 7; 12; 8; 9; 11; 7; 7; 12; 7; 6; 15; 13; 11;
   9; 7; 15; 11; 8; 6; 6; 14; 12; 13; 5; 14; 13; 13; 7; 5;
   15; 5; 8; 11; 14; 14; 6; 14; 6; 9; 12; 9; 12; 5; 15; 8;
-  8; 5; 12; 9; 12; 5; 14; 6; 8; 13; 6; 5; 15; 13; 11; 11].
+  8; 5; 12; 9; 12; 5; 14; 6; 8; 13; 6; 5; 15; 13; 11; 11]%nat.
 
-Definition rmd_state := (Z * Z * Z * Z * Z)%type.
+(* left rotations by the amounts above (and by 10), precomputed as window recipes *)
+Definition rmd_sL : list rspec := Eval vm_compute in map (mk_rotl 8) rmd_sLn.
+Definition rmd_sR : list rspec := Eval vm_compute in map (mk_rotl 8) rmd_sRn.
+Definition rmd_rol10 : rspec := Eval vm_compute in mk_rotl 8 10.
 
-Definition rmd_init : rmd_state := (0x67452301, 0xEFCDAB89, 0x98BADCFE, 0x10325476, 0xC3D2E1F0).
+Definition rmd_state := (nword * nword * nword * nword * nword)%type.
+
+Definition rmd_init : rmd_state :=
+  (nw_of_Z 8 0x67452301, nw_of_Z 8 0xEFCDAB89, nw_of_Z 8 0x98BADCFE, nw_of_Z 8 0x10325476, nw_of_Z 8 0xC3D2E1F0).
 
 (* little-endian words of a block *)
-Fixpoint words_le (k : nat) (bs : bytes) : list Z :=
+Fixpoint words_le (k : nat) (bs : bytes) : list nword :=
   match k with
   | O => []
-  | S k' => of_le (firstn 4 bs) :: words_le k' (skipn 4 bs)
+  | S k' => nw_of_bytes_le (firstn 4 bs) :: words_le k' (skipn 4 bs)
   end.
 
 (* one step: fi = round-function index, kc = round constant, r = message word index, s = rotation *)
-Definition rmd_step (fi : nat) (kc : Z) (r : nat) (s : Z) (X : list Z) (st : rmd_state) : rmd_state :=
+Definition rmd_step (fi : nat) (kc : nword) (r : nat) (s : rspec) (X : list nword) (st : rmd_state)
+  : rmd_state :=
   let '(a, b, c, d, e) := st in
-  let t := add32 (rol32 s (add32 (add32 a (rmd_f fi b c d)) (add32 (nth r X 0) kc))) e in
-  (e, t, b, rol32 10 c, d).
+  let t := rmd_add (nw_apply 8 s (rmd_add (rmd_add a (rmd_f fi b c d)) (rmd_add (nth r X rmd_zero) kc))) e in
+  (e, t, b, nw_apply 8 rmd_rol10 c, d).
 
 (* a line of steps; j = step index, left selects the left/right constants and function order *)
-Fixpoint rmd_line (left : bool) (j : nat) (rs : list nat) (ss : list Z) (X : list Z) (st : rmd_state)
+Fixpoint rmd_line (left : bool) (j : nat) (rs : list nat) (ss : list rspec) (X : list nword) (st : rmd_state)
   : rmd_state :=
   match rs, ss with
   | r :: rs', s :: ss' =>
       let rd := (j / 16)%nat in
       let fi := if left then rd else (4 - rd)%nat in
-      let kc := nth rd (if left then rmd_KL else rmd_KR) 0 in
+      let kc := nth rd (if left then rmd_KL else rmd_KR) rmd_zero in
       rmd_line left (S j) rs' ss' X (rmd_step fi kc r s X st)
   | _, _ => st
   end.
@@ -84,11 +97,11 @@ Definition rmd_compress (h : rmd_state) (block : bytes) : rmd_state :=
   let '(h0, h1, h2, h3, h4) := h in
   let '(al, bl, cl, dl, el) := rmd_line true 0 rmd_rL rmd_sL X h in
   let '(ar, br, cr, dr, er) := rmd_line false 0 rmd_rR rmd_sR X h in
-  (add32 (add32 h1 cl) dr,
-   add32 (add32 h2 dl) er,
-   add32 (add32 h3 el) ar,
-   add32 (add32 h4 al) br,
-   add32 (add32 h0 bl) cr).
+  (rmd_add (rmd_add h1 cl) dr,
+   rmd_add (rmd_add h2 dl) er,
+   rmd_add (rmd_add h3 el) ar,
+   rmd_add (rmd_add h4 al) br,
+   rmd_add (rmd_add h0 bl) cr).
 
 Definition rmd_pad (msg : bytes) : bytes :=
   let n := length msg in
@@ -107,6 +120,7 @@ Fixpoint rmd_blocks (fuel : nat) (st : rmd_state) (bs : bytes) : rmd_state :=
 Definition ripemd160 (msg : bytes) : bytes :=
   let p := rmd_pad msg in
   let '(h0, h1, h2, h3, h4) := rmd_blocks (S (length p / 64)) rmd_init p in
-  le_bytes 4 h0 ++ le_bytes 4 h1 ++ le_bytes 4 h2 ++ le_bytes 4 h3 ++ le_bytes 4 h4.
+  le_bytes 4 (nw_to_Z h0) ++ le_bytes 4 (nw_to_Z h1) ++ le_bytes 4 (nw_to_Z h2) ++ le_bytes 4 (nw_to_Z h3)
+  ++ le_bytes 4 (nw_to_Z h4).
 
 Definition hash160 (b : bytes) : bytes := ripemd160 (sha256 b).
